@@ -40,7 +40,11 @@ impl KeGroup for Curve25519 {
             .try_into()
             .ok()
             .map(MontgomeryPoint)
-            .filter(|pk| pk != &MontgomeryPoint::identity())
+            // Reject the identity and every other small-order point (on the curve or
+            // on its twist): Diffie-Hellman with such a point always yields the
+            // all-zero shared secret. Multiplying by the cofactor maps exactly these
+            // points to the identity.
+            .filter(|pk| pk * Scalar::from(8u8) != MontgomeryPoint::identity())
             .ok_or(InternalError::PointError)
     }
 
